@@ -125,14 +125,23 @@ class FPFormat:
         return QuantiseBackward.apply(x)  # type: ignore
 
 
-def format_to_tuple(format: FPFormat) -> Tuple[int, int]:
-    """Convert the format into a tuple of `(exponent_bits, mantissa_bits)`"""
-    return (format.exponent_bits, format.mantissa_bits)
+FormatTuple = Tuple[int, int, str, int]
 
 
-def tuple_to_format(t: Tuple[int, int]) -> FPFormat:
-    """Given a tuple of `(exponent_bits, mantissa_bits)` returns the corresponding
-    :class:`FPFormat`"""
+def format_to_tuple(format: FPFormat) -> FormatTuple:
+    """Convert the format into a tuple of
+    `(exponent_bits, mantissa_bits, rounding, srbits)`"""
+    return (
+        format.exponent_bits,
+        format.mantissa_bits,
+        format.rounding,
+        format.srbits,
+    )
+
+
+def tuple_to_format(t: FormatTuple) -> FPFormat:
+    """Given a tuple of `(exponent_bits, mantissa_bits, rounding, srbits)` returns the
+    corresponding :class:`FPFormat`"""
     return FPFormat(*t)
 
 
